@@ -1,5 +1,6 @@
 import XvcRepo.Model
 import XvcRepo.Storage
+import XvcRepo.CopyMany
 /-!
   Line-protocol driver for the repository model (`repomodel`).  One tab-separated command per line,
   one canonical abstraction of the resulting state per line.  `lib/repo_harness.py` sends the same
@@ -86,6 +87,15 @@ def showOut : Out → String | .ok => "ok" | .refused => "refused" | .panic => "
 
 def b01 (s : String) : Bool := s == "1"
 
+/-- `XvcPath::join` / `join_file_name` on path strings: the destination of one source under the destination
+    argument `dest` (`out/` + `d/a.txt` = `out/d/a.txt`; with `--name-only` `out/a.txt`); a destination that is
+    not a directory is taken as it is -/
+def manyDest (dest : String) (nameOnly : Bool) (src : String) : String :=
+  if dest.endsWith "/" then dest ++ (if nameOnly then (src.splitOn "/").getLast! else src) else dest
+
+/-- `destination.strip_suffix('/')` -/
+def dirOf (dest : String) : String := "/".intercalate ((dest.splitOn "/").dropLast)
+
 structure D where
   cfg : Cfg := {}
   st : St := St.init
@@ -158,6 +168,31 @@ def stepLine (d : D) (line : String) : D × String :=
     match ps with
     | [a, b] => exec { d with tab := tb } (.move a b { method := parseMethod m, noRecheck := b01 nr, force := false })
     | _ => (d, "bad-op")
+  | "copym" :: m :: nr :: f :: no :: fx :: dest :: srcs =>
+    -- copy with any number of sources: options, `--name-only`, which code variant (see `St.copyMany`), the
+    -- destination argument as typed (a trailing `/` makes it a directory) and the candidate paths the source
+    -- argument matches.  The pairing source -> destination is computed HERE, from the path strings.
+    let isDir := dest.endsWith "/"
+    let (tb, ss) := d.tab.interns srcs
+    let (tb, ds) := tb.interns (srcs.map (manyDest dest (b01 no)))
+    let (tb, dir) : Tab × Option Path :=
+      if isDir then (let (t, p) := tb.intern (dirOf dest); (t, some p)) else (tb, none)
+    let o : CopyOpts := { method := parseMethod m, noRecheck := b01 nr, force := b01 f }
+    let pairs := ss.zip ds
+    let sel := d.st.select pairs
+    if isDir && St.overlap (d.st.copyPlan o.force sel) sel then ({ d with tab := tb }, "unmodelled")
+    else
+      let (s, out) := d.st.copyMany d.cfg o (b01 fx) dir pairs
+      ({ d with tab := tb, st := s }, s!"rc={showOut out} {showState tb s}")
+  | "movem" :: m :: nr :: dest :: srcs =>
+    let isDir := dest.endsWith "/"
+    let (tb, ss) := d.tab.interns srcs
+    let (tb, ds) := tb.interns (srcs.map (manyDest dest false))
+    let (tb, dir) : Tab × Option Path :=
+      if isDir then (let (t, p) := tb.intern (dirOf dest); (t, some p)) else (tb, none)
+    let o : CopyOpts := { method := parseMethod m, noRecheck := b01 nr, force := false }
+    let (s, out) := d.st.moveMany d.cfg o dir (ss.zip ds)
+    ({ d with tab := tb, st := s }, s!"rc={showOut out} {showState tb s}")
   | ["state"] => (d, showState d.tab d.st)
   | ["use", n] =>
     -- switch the current repository slot (the state of the current one is parked)
